@@ -13,7 +13,21 @@
 #define vbpol ((mapping) REG->pol ("vb"))
 #define vopol ((mapping) REG->pol ("vo"))
 
-void create () { oid = "m"; }
+// create(): at the first load and after `dest,m` only the id is set (the registry does not exist yet / the `dest` op announces
+// the new master once set_master made it root); after reload_object(master()) - the registry marks it - it announces itself and
+// runs its create() script like every other object
+void create () {
+  string ops;
+  oid = "m";
+  if (!find_object (REG) || !REG->reloading ()) return;
+  VL ("new m /c20/master " + us (getuid ()) + " " + us (geteuid ()));
+  REG->snap ();
+  ops = REG->script ("/c20/master");
+  if (!stringp (ops)) return;
+  REG->enter ();
+  foreach (string op in explode (ops, ";")) run_op (op);
+  REG->leave ();
+}
 
 // connect(): `do m connect,<newoid>,<path>` - the driver's mudlib_connect() applies connect(); the master clones the user
 // object (an ordinary, logged clone op of the master) and hands it back
